@@ -99,7 +99,10 @@ impl SWCurveConfig for Config {
             read_g1_uncompressed(&mut reader)?
         };
 
-        if validate == ark_serialize::Validate::Yes && !p.is_in_correct_subgroup_assuming_on_curve()
+        // The subgroup test assumes a point of the curve; an uncompressed encoding
+        // can carry any (x, y), so the curve equation has to be checked as well.
+        if validate == ark_serialize::Validate::Yes
+            && !(p.is_on_curve() && p.is_in_correct_subgroup_assuming_on_curve())
         {
             return Err(SerializationError::InvalidData);
         }
